@@ -5,7 +5,7 @@ import . "vh/vhlib"
 func main() {
 	Main(map[string]CmdFn{
 		"gen": func(a []string) int { return RunGen(gens, a) },
-		"c06": c06,
-		"c16": c16,
+		"c09": c09,
+		"c02": c02,
 	})
 }
